@@ -88,6 +88,36 @@ def replay_stranded(name, conc, notes):
                       f"ran empty: {bad}"}
 
 
+def replay_order(name, conc, notes):
+    """twenty requests queued in one go: the order in which they are handed
+    to process_packet (frame after frame) is the submission order"""
+    import asyncio
+    from ebpfcat.ethercat import ECCmd, EtherCat
+
+    async def go():
+        ec = object.__new__(EtherCat)
+        ec.send_queue = asyncio.Queue()
+        ec.wait_futures = {}
+        shipped = []
+
+        async def pp(dgrams, packet):
+            shipped.extend(f for _, _, f in dgrams)
+        ec.process_packet = pp
+        futs = []
+        for i in range(20):
+            fut = asyncio.get_event_loop().create_future()
+            futs.append(fut)
+            ec.send_queue.put_nowait((ECCmd.FPRD, bytes(4), 0, 1, i, fut))
+        task = asyncio.ensure_future(ec.sendloop())
+        for _ in range(60):
+            await asyncio.sleep(0)
+        task.cancel()
+        return [futs.index(f) for f in shipped]
+    order = asyncio.run(go())
+    return {"inputs": {"requests queued at once": 20}, "reproduced": True if order != sorted(order) else None,
+            "detail": f"real sendloop handed the requests to process_packet in the order {order}"}
+
+
 def verify(rep):
     from contracts import c12_sendloop as S
     from vc.pyvc import api
@@ -97,6 +127,7 @@ def verify(rep):
         api.verify(S.sendloop, rep, options={"inline": set()},
                    replay=lambda n, i, nt: replay_stall(n, i, nt) if "without_progress" in n else
                    replay_stranded(n, i, nt) if "a_batch_waits" in n or "no batched request" in n else
+                   replay_order(n, i, nt) if "submission_order" in n else
                    {"inputs": i, "reproduced": None, "detail": "no native harness for this clause"})
     finally:
         api.REGISTRY.clear()
